@@ -1,0 +1,114 @@
+//go:build verif
+
+package tan
+
+// Verification hooks for property C10 (add-only, compiled only with -tags
+// verif): the record writer and reader of record.go on plain byte buffers, and
+// a way to open a tan db with a small log file size.
+
+import (
+	"bytes"
+	"io"
+
+	"github.com/cockroachdb/errors"
+)
+
+// VerifC10Frame writes the specified records with the log writer of record.go
+// (writeRecord, as db.doWriteLocked does) and returns the produced bytes.
+func VerifC10Frame(records [][]byte) ([]byte, error) {
+	var out bytes.Buffer
+	w := newWriter(&out)
+	for _, rec := range records {
+		if _, err := w.writeRecord(rec); err != nil {
+			return nil, err
+		}
+	}
+	if err := w.close(); err != nil {
+		return nil, err
+	}
+	return out.Bytes(), nil
+}
+
+// VerifC10Replay reads records from data with the reader of record.go in the
+// same way db.readLog does when a log is replayed from its start. It returns
+// the payload of the complete records read and how the replay ended: "eof",
+// "zeroed", "invalid", "ueof", "crc" or "other".
+func VerifC10Replay(data []byte) ([][]byte, string) {
+	rr := newReader(bytes.NewReader(data), 0)
+	var records [][]byte
+	verdict := func(err error) string {
+		switch {
+		case err == io.EOF:
+			return "eof"
+		case errors.Is(err, ErrZeroedChunk):
+			return "zeroed"
+		case errors.Is(err, ErrInvalidChunk):
+			return "invalid"
+		case errors.Is(err, io.ErrUnexpectedEOF):
+			return "ueof"
+		case errors.Is(err, ErrCRCMismatch):
+			return "crc"
+		}
+		return "other"
+	}
+	for {
+		r, err := rr.next()
+		if err != nil {
+			return records, verdict(err)
+		}
+		var buf bytes.Buffer
+		if _, err = io.Copy(&buf, r); err != nil {
+			return records, verdict(err)
+		}
+		records = append(records, append([]byte{}, buf.Bytes()...))
+	}
+}
+
+// VerifC10IsInvalidRecord tells whether open treats the specified replay
+// verdict as the end of a log with a torn tail (true) or refuses to open the
+// db (false).
+func VerifC10IsInvalidRecord(verdict string) bool {
+	switch verdict {
+	case "zeroed":
+		return IsInvalidRecord(ErrZeroedChunk)
+	case "invalid":
+		return IsInvalidRecord(ErrInvalidChunk)
+	case "ueof":
+		return IsInvalidRecord(io.ErrUnexpectedEOF)
+	case "crc":
+		return IsInvalidRecord(ErrCRCMismatch)
+	}
+	return false
+}
+
+// VerifC10BlockSize returns the block size and the chunk header size of the
+// record format.
+func VerifC10BlockSize() (int, int) {
+	return blockSize, legacyHeaderSize
+}
+
+// VerifC10Preopen opens (or returns the already open) tan db used by the
+// specified raft node exactly like collection.getDB does, but with the given
+// MaxLogFileSize so that a harness can force log file rollover with a small
+// amount of data. A zero maxLogFileSize selects the default.
+func (l *LogDB) VerifC10Preopen(shardID uint64,
+	replicaID uint64, maxLogFileSize int64) error {
+	l.mu.Lock()
+	defer l.mu.Unlock()
+	c := &l.collection
+	if _, ok := c.keeper.get(shardID, replicaID); ok {
+		return nil
+	}
+	name := c.keeper.name(shardID, replicaID)
+	dbdir := c.fs.PathJoin(c.dirname, name)
+	if err := c.prepareDir(dbdir); err != nil {
+		return err
+	}
+	db, err := open(dbdir, dbdir,
+		&Options{FS: c.fs, MaxLogFileSize: maxLogFileSize})
+	if err != nil {
+		return err
+	}
+	c.keeper.set(shardID, replicaID, db)
+	return nil
+}
